@@ -38,6 +38,17 @@ CHECKS = {
         design_ref="DESIGN.md 5 C34",
         note=NOTE_COMMON + " LIFO nestings only; values compared by (type, repr).",
     ),
+    "C33": dict(
+        text=("TLC checks UnitsImpl (factor table in the log domain 10^e*(180/pi)^d, alias normalisation, factor = "
+              "table[new]/table[old], axis conversion as an accumulated factor) against the composition and inversion laws "
+              "of Units.tla for every path of up to 4 (thorough 5) units within each category, and emits every path; each "
+              "path is walked on the real get_conversion_factor and LinearAxis.convert_units (three sampling/offset pairs) "
+              "and the logged deviations chain-vs-direct and round-trip-vs-identity are decided by UnitsTrace.tla.  The "
+              "enumeration is exhaustive for the unit set the library declares."),
+        technique="TLA+ model of the unit table checked with TLC; TLC-enumerated conversion paths executed on the real code; TLC trace validation",
+        design_ref="DESIGN.md 5 C33",
+        note=NOTE_COMMON + " Deviations are computed in float64 by the harness and logged in parts per billion; tolerance 1e-6.",
+    ),
 }
 
 NOT_APPLICABLE = {
